@@ -30,6 +30,14 @@ def rule(key, dig, desc, kinds):
     # g1_35_1: Union[int, str] = 3 -> set_default_doc calls quote(3): AttributeError 'int' object has no attribute 'value'
     if any(e["typ"] == "Union[int, str]" and e["default"] == 3 for e in es) and (anyk("class", *FN) or cfg.endswith("_T") or cfg.startswith(("chain", "stab"))):
         return "KF-RT-quote-nonstr-default"
+    # g3_11_6_0: a return entry that has prose but no type: class annotates it `object`, google reads the prose line as the type,
+    # numpydoc writes the prose where the type belongs and reads 'Returns' / '-------' back as parameter names
+    if any(e["ret"] and e["typ"] is None for e in es) and anyk("class", "numpydoc", "google"):
+        return "KF-RT-ret-untyped"
+    # g3_11_5_0: a return entry that has a type but no prose: numpydoc's parser indexes the missing prose line (IndexError), google reads
+    # the type line as prose, emit.function with inline_types=False has no ':returns:' line to hang the ':rtype:' on
+    if any(e["ret"] and not e["doc"] for e in es) and anyk("numpydoc", "google", *FN):
+        return "KF-RT-ret-noprose"
     # g1_10_1 / g1_26_1: a str / Optional[str] parameter whose default is '' -> dangling 'Defaults to' (doc kinds), SyntaxError (numpydoc), None instead of '' (class)
     if any(e["default"] == "" and isinstance(e["default"], str) for e in es):
         return "KF-RT-empty-str-default"
@@ -95,6 +103,10 @@ def rule(key, dig, desc, kinds):
         # chain_A|g1_23_0 (numpydoc -> class): a default without prose is lost in the docstring hop; the next hop invents its own
         if anyk(*DOCS, *FN) and any(not e["doc"] and e["default"] != ABSENT for e in ps):
             return "KF-RT-noprose-default"
+        # chain_A|g3_19_1_0 (function -> numpydoc): emit.function invents `= None` (KF-RT-fn-none-default), which then counts as "a default
+        # was seen" for numpydoc/google: the return entry acquires the zero value
+        if any(k in FN for k in kinds[:-1]) and kinds[-1] in ("numpydoc", "google") and any(e["default"] == ABSENT for e in ps):
+            return "KF-RT-np-force-default"
         # chain_A|g1_31_1 (argparse -> method): argparse's zero value '' (a documented normalisation) meets the empty-string defect
         if "argparse" in kinds[:-1] and any(e["default"] == ABSENT for e in ps):
             return "KF-RT-empty-str-default"
